@@ -95,7 +95,20 @@ def run(ctx):
              "field counts are rejected", floor=40)
     df = repo.func("psutil", "disk_io_counters")
     lf = repo.func("_pslinux", "disk_io_counters")
-    flen_var = [st.targets[0].id for st in ast.walk(lf.node) if isinstance(st, ast.Assign)
+    # the variable holding the number of fields of a diskstats line: in the
+    # function itself, its nested generators, or a module-level helper they call
+    scope = [lf.node]
+    seen_h = set()
+    for _ in range(2):
+        for nd in list(scope):
+            for c_ in [x_ for x_ in ast.walk(nd) if isinstance(x_, ast.Call)]:
+                if isinstance(c_.func, ast.Name) and c_.func.id not in seen_h:
+                    seen_h.add(c_.func.id)
+                    h_ = repo.func("_pslinux", c_.func.id, required=False)
+                    if h_ is not None and h_.node not in scope:
+                        scope.append(h_.node)
+    flen_var = [st.targets[0].id for nd in scope for st in ast.walk(nd)
+                if isinstance(st, ast.Assign)
                 and isinstance(st.value, ast.Call) and dotted(st.value.func) == "len"
                 and isinstance(st.targets[0], ast.Name)]
     ctx.require(flen_var, "disk_io_counters: the field count of a diskstats line is no "
